@@ -2945,6 +2945,19 @@ func genCase(t *rapid.T) Case {
 	if rapid.IntRange(0, 9).Draw(t, "packageInfo") == 9 {
 		c.Files = append(c.Files, File{Name: "package-info", Dir: c.Files[0].Dir, Package: "com.acme.info", Header: 1})
 	}
+	// eighth seed batch: a large code base: 125-140 further classes without methods (lazyElement each) in directories
+	// that sort before, between and behind the drawn ones, so that 128 and more classes go through one report
+	if rapid.IntRange(0, 29).Draw(t, "manyClasses") == 29 {
+		extra := rapid.IntRange(125, 140).Draw(t, "manyClassesCount")
+		for k := 0; k < extra; k++ {
+			dir := []string{"aaa/bulk", "mmm/bulk", "zzz/bulk"}[k%3]
+			name := fmt.Sprintf("Bulk%03d", k)
+			if !used[name] {
+				used[name] = true
+				c.Files = append(c.Files, File{Name: name, Dir: dir, Package: "bulk.p" + fmt.Sprint(k%3)})
+			}
+		}
+	}
 	c.Ignore = genIgnore(t)
 	c.Sort = rapid.Bool().Draw(t, "sort")
 	if rapid.IntRange(0, 4).Draw(t, "hasPrior") == 4 {
